@@ -30,7 +30,7 @@ TRACE = {pipe_mod.__file__, bp_mod.__file__, ch_mod.__file__}
 
 
 def sim_kw(seed):
-    return {"trace_files": TRACE, "max_steps": 3_000_000, "max_time": 3600.0}
+    return {"trace_files": TRACE, "trace_opcodes": seed % 4 == 0, "max_steps": 3_000_000, "max_time": 3600.0}
 
 
 # os.read on the notification pipe must never block the OS thread (it holds
@@ -64,6 +64,8 @@ def scenario(sim):
     sim.p_switch = (0.02, 0.05, 0.3)[sim.choose(3)]
     sim.p_preempt = (0.0, 0.01, 0.05, 0.2)[sim.choose(4)]
     sim.max_preempt = (0, 3, 6, 200)[sim.choose(4)]
+    if sim.trace_opcodes:
+        sim.p_preempt_store = (0.01, 0.05, 0.2)[sim.choose(3)]
     sim.pipe_blocked = False
     saved = pipe_mod.os
     pipe_mod.os = _pipe_os
